@@ -178,8 +178,10 @@ T_HC = T("C01hc", "c11_hc", "c01_hc")
 T_GO = T("C04go", "c03_go") + T("C04go", "c04_go_partial", "c04_go_indep_partial", kind="full under the model's documented assumption len(dst) < 2^63") \
     + T("C04go", "c04_go_unbounded_false", kind="counterexample (model artefact: fixed doubling fuel)")
 
-def x_c19(run):
-    pass
+T_ASM = T("C03asm", "c03_asm") + T("C03asm", "c04_asm_partial", kind="full under `no dictionary or dst base address >= 65536` (every Go heap address)") \
+    + T("C03asm", "c04_asm_false", kind="counterexample: the assembly rejects a valid dictionary offset when &dst < 65536 (unreachable address)")
+T_C09 = T("C09", "idx_valid", "c09_writer", "c09_writer_fast", "c09_clean") + T("C09full", "hcCorrect", "c09_writer_all", "c09_clean_all")
+T_C19 = T("C19", "c19_accept_iff", "c19_bad_checksum", "c19_bad_block_size", "c19_size", "c19_bad_magic", "c19_spec", "c19_reader_size")
 
 
 def x_c20(run):
@@ -189,17 +191,17 @@ def x_c20(run):
 PROPS = {
     "C20": dict(runs=[], extra=[x_c20], theorems=[],
                 rule="each case = (flag set, generated file, mode, file or stdin/stdout); every case is non-trivial; distinct = distinct case description"),
-    "C02": dict(runs=[FW("fw", judge=j_c02w), FR("fr", judge=j_c02r)], theorems=[]),
+    "C02": dict(runs=[FW("fw", judge=j_c02w), FR("fr", judge=j_c02r)], theorems=T("C09full", "c09_writer_all")),
     "C05": dict(runs=[FR("frmut", judge=j_c05), FR("fr", judge=j_c05)], theorems=[]),
     "C06": dict(runs=[FR("frtrunc", judge=j_c06)], theorems=[]),
     "C07": dict(runs=[FR("frhost", judge=j_c07), FR("frmut", judge=j_c07)], theorems=[]),
-    "C09": dict(runs=[FW("fw", judge=j_c09)], theorems=[]),
+    "C09": dict(runs=[FW("fw", judge=j_c09)], theorems=T_C09),
     "C15": dict(runs=[FW("fwfail", judge=j_c15w), FR("frfail", judge=j_c15r)], theorems=[]),
     "C16": dict(runs=[FR("fr", judge=j_c16)], theorems=[]),
     "C17": dict(runs=[FW("fwlife", judge=j_c17w), FR("fr", judge=j_c17r)], theorems=[]),
     "C01": dict(runs=[dict(CMP, judge=j_c01)], theorems=T_FAST + T_HC),
-    "C03": dict(runs=[dict(DEC_ASM, judge=j_c03), dict(DEC_GO, judge=j_c03)], theorems=T("C04go", "c03_go")),
-    "C04": dict(runs=[dict(DEC_ASM, judge=j_c04), dict(DEC_GO, judge=j_c04)], theorems=T_GO),
+    "C03": dict(runs=[dict(DEC_ASM, judge=j_c03), dict(DEC_GO, judge=j_c03)], theorems=T("C04go", "c03_go") + T("C03asm", "c03_asm")),
+    "C04": dict(runs=[dict(DEC_ASM, judge=j_c04), dict(DEC_GO, judge=j_c04)], theorems=T_GO + T_ASM),
     "C10": dict(runs=[dict(CMP, judge=j_c10)], theorems=T("C01fast", "c11_fast") + T("C01hc", "c11_hc")),
     "C11": dict(runs=[dict(CMP, judge=j_c11)], theorems=T("C01fast", "c11_fast") + T("C01hc", "c11_hc")),
     "C18": dict(runs=[dict(family="cr", variant="asm", kview=kview_w, nontrivial=nontrivial_sess,
@@ -207,8 +209,9 @@ PROPS = {
                                                                "n<=len(p), progress, one valid frame, io.EOF, source error passed through")))], theorems=[]),
     "C19": dict(runs=[dict(family="hdr", variant="asm", kview=lambda l: l.split(" ; ")[0].strip(), nontrivial=lambda c, i: "acc=" in i and not i.startswith("acc= "),
                       judge=j_notes(r"HDR-MISMATCH\S*", "header acceptance not exact", "accepted iff checksum byte right and block-size code in 4..7; distinct errors; Size unchanged"))],
-               theorems=[], exhaustive_thorough=True),
-    "C12": dict(runs=[dict(DEC_ASM, judge=j_c12), dict(DEC_GO, judge=j_c12)], extra=[x_c12], theorems=[]),
+               theorems=T_C19, exhaustive_thorough=True),
+    "C12": dict(runs=[dict(DEC_ASM, judge=j_c12), dict(DEC_GO, judge=j_c12)], extra=[x_c12],
+                theorems=T("C04go", "c04_go_partial") + T("C03asm", "c04_asm_partial")),
     "C13": dict(runs=[dict(XXH, judge=j_c13)], theorems=T("C13", "oneshot", "stream", "stream_reset")),
     "C14": dict(runs=[dict(CMP, judge=j_c14b)], theorems=[]),
 }
